@@ -382,7 +382,11 @@ def run(ctx):
                     return rnd.choice([-1, 1]) * rnd.choice([1, 10, 100, 1000, 10000]) * rnd.randrange(1, 99)
                 scalar = q == "freq" or rnd.random() < 0.6
                 req = [rv()] if scalar else [rv() for _ in range(rnd.randrange(1, 6))]
+                if rnd.random() < 0.15:          # absurdly large requests (beyond 64-bit integers / 1e30): clamped like any other
+                    # (PRBS orders of 2^63.. are left out: every supported order is "nearest" to them in double precision, and the statement does not say which)
+                    req[0] = rnd.choice([2 ** 63, 2 ** 64, 10 ** 30, -(10 ** 30)]) if q == "plen" else (rnd.choice([10 ** 30, -(10 ** 30), 10 ** 12]) if q == "order" else rnd.choice([10 ** 18, -(10 ** 18), 10 ** 24]))
                 cmds, warned, raised = do_set(ppg, q, req, scalar, sel)
+                req = [max(-10 ** 9, min(10 ** 9, v_)) for v_ in req]       # (logged within TLC's integers: the clamp is the same)
                 events.append({"kind": "set", "q": q, "req": req, "scalar": scalar, "sel": sel, "cmds": cmds, "warned": warned, "raised": bool(raised)})
                 meta.append(("set", q, "random", "sel", raised))
                 ctx.case(("rset", q, scalar, len(sel) > 0, any(v < lo or v > hi for v in req)))
@@ -404,12 +408,24 @@ def run(ctx):
                 meta.append(("get_data", n, addr, tuple(sel), raised))
                 ctx.case(("rget_data", (n - 1) // 1024 if n < 4000 else 4, n % 1024 == 0))
         validate(ctx, events, meta, 1024, 2 ** 21, "random history (real constants)")
+    # absurdly large requests, every quantity (deterministic): clamped and warned like any other out-of-range value
+    ppg = new_ppg()
+    events, meta = [], []
+    for q, vals_ in (("plen", [2 ** 63, 2 ** 64, 10 ** 30, -(10 ** 30), 2 ** 40]), ("order", [10 ** 30, -(10 ** 30), 10 ** 12]), ("freq", [10 ** 18, 10 ** 24, -(10 ** 18)]),
+                     ("amp", [10 ** 18, -(10 ** 24)]), ("offs", [10 ** 18, -(10 ** 24)]), ("skew", [10 ** 18, -(10 ** 18)])):
+        for v_ in vals_:
+            for sel in ([], [2, 4]):
+                cmds, warned, raised = do_set(ppg, q, [v_], True, sel)
+                events.append({"kind": "set", "q": q, "req": [max(-10 ** 9, min(10 ** 9, v_))], "scalar": True, "sel": sel, "cmds": cmds, "warned": warned, "raised": bool(raised)})
+                meta.append(("set", q, "absurd", "sel", raised))
+        ctx.case(("rset-absurd", q))
+    validate(ctx, events, meta, 1024, 2 ** 21, "absurd requests (real constants)")
     # ------------------------------------------------------------------ 3. SYNC
     events, meta = [], []
     for k in range(400 if T else 40):
         order = rnd.choice([7, 7, 9])
-        sps = rnd.choice([2, 4, 8])
-        slots = PRBS(order, rnd.choice([2 ** order - 1, 100, 64]), seed=rnd.randrange(1, 100))
+        sps = rnd.choice([2, 4, 8]) if k % 3 else [3, 5, 1, 7][(k // 3) % 4]          # odd numbers of samples per slot (odd pattern lengths in samples) too
+        slots = PRBS(order, rnd.choice([2 ** order - 1, 100, 64]) if k % 3 else 2 ** order - 1, seed=rnd.randrange(1, 100))
         if k % 10 == 7:      # a long pattern whose first 512 slots recur later in the period: [A, A, B]
             from opticomlib.typing import binary_sequence as _bs
             A_ = PRBS(9, 512, seed=3 + k).data
@@ -422,7 +438,7 @@ def run(ctx):
             order = 0
         tx = np.kron(slots.data, np.ones(sps))
         l = tx.size
-        d = rnd.choice([0, 0, 1, l - 1, l // 2, rnd.randrange(0, l)])
+        d = rnd.choice([0, 0, 1, l - 1, l // 2, rnd.randrange(0, l), l // 2 + 1 + rnd.randrange(0, max(1, l // 2 - 1))])
         rx = np.roll(np.tile(tx, 3), d).astype(float)
         sigma = rnd.choice([0.0, 0.02, 0.1])
         np.random.seed(k)
